@@ -70,7 +70,8 @@ def expected_report(tree, imports, comps, arrows, should_only):
 
 
 def run_diagram(path, ev, fq, should_only, base=None):
-    rule = DiagramRule(should_only_rule=should_only).from_file(Path(path))
+    # should-only is the documented default mode: one of the two naming options relies on the default, the other says it
+    rule = (DiagramRule() if (should_only and fq) else DiagramRule(should_only_rule=should_only)).from_file(Path(path))
     rule = rule.base_module_included_in_module_names() if fq else rule.with_base_module(base or BASE)
     return outcome(lambda: rule.assert_applies(ev))
 
